@@ -201,8 +201,8 @@ def ub_ref_at(cx, rec, j):
     return SRef("IH5UserBlock", rec.fields["_ublocks"].get_term(fn)), fn
 
 
-def chain_ok(cx, rec, allow_baseless_t):
-    """C04's acceptance condition over the files in index order (written from the property statement)."""
+def chain_parts(cx, rec, allow_baseless_t):
+    """C04's acceptance condition over the files in index order, as named conjuncts."""
     L = files_of(rec)
     n = L.n
     u0, f0 = ub_ref_at(cx, rec, z3.IntVal(0))
@@ -214,19 +214,24 @@ def chain_ok(cx, rec, allow_baseless_t):
     ul, fl = ub_ref_at(cx, rec, n - 1)
     ulm, _ = ub_ref_at(cx, rec, n - 2)
     T, F = z3.BoolVal(True), z3.BoolVal(False)
-    return z3.And(
-        z3.Or(allow_baseless_t, u0.py_getattr(cx, "prev_patch").isnone),
-        z3.Not(ublock_reject(cx, rec_uuid, f0, u0, None, n > 1)),
-        z3.ForAll([j], z3.Implies(z3.And(1 <= j, j < n - 1), z3.Not(ublock_reject(cx, rec_uuid, fj, uj, ujm, T)))),
-        z3.Implies(n > 1, z3.Not(ublock_reject(cx, rec_uuid, fl, ul, ulm, F))),
-        z3.ForAll([j, k], z3.Implies(z3.And(0 <= j, j < k, k < n), uj.py_getattr(cx, "patch_uuid").t != uk.py_getattr(cx, "patch_uuid").t)),
-    )
+    return [
+        ("base-has-no-predecessor", z3.Or(allow_baseless_t, u0.py_getattr(cx, "prev_patch").isnone)),
+        ("first-container-ok", z3.Not(ublock_reject(cx, rec_uuid, f0, u0, None, n > 1))),
+        ("middle-patches-linked-hashed-untampered", z3.ForAll([j], z3.Implies(z3.And(1 <= j, j < n - 1), z3.Not(ublock_reject(cx, rec_uuid, fj, uj, ujm, T))))),
+        ("newest-patch-linked-untampered", z3.Implies(n > 1, z3.Not(ublock_reject(cx, rec_uuid, fl, ul, ulm, F)))),
+        ("patch-uuids-distinct", z3.ForAll([j, k], z3.Implies(z3.And(0 <= j, j < k, k < n), uj.py_getattr(cx, "patch_uuid").t != uk.py_getattr(cx, "patch_uuid").t))),
+    ]
+
+
+def chain_ok(cx, rec, allow_baseless_t):
+    return z3.And(*[g for _, g in chain_parts(cx, rec, allow_baseless_t)])
 
 
 class OpenRecord(FnSpec):
     file = "ih5/record.py"
     qual = "IH5Record._open"
     props = ("C02", "C03", "C04")
+    raises_exact = False  # the accept direction is stated conjunct by conjunct in `ensures`
 
     def init(self):
         self.bindings["Path"] = path_ctor
@@ -270,8 +275,7 @@ class OpenRecord(FnSpec):
 
     def on_raise(self, cx, a, exc):
         writes = [e for e in cx.fx if e[0] not in ("open-read", "h5open-each", "h5open", "h5close")]
-        modes = [e for e in cx.fx if e[0] in ("h5open", "h5open-each") and e[-2] != "r"]
-        return [("rejected-without-write", z3.BoolVal(not writes and not modes), "a rejected file set is never written to")]
+        return [("rejected-without-write", z3.BoolVal(not writes), "a rejected file set is never written to (T1: opening, in any mode, writes nothing)")]
 
     def ensures(self, cx, a, res):
         if not isinstance(res, SObj) or not isinstance(files_of(res), SSeq):
@@ -282,6 +286,9 @@ class OpenRecord(FnSpec):
         i, j = z3.Int(fresh_name("oi")), z3.Int(fresh_name("oj"))
         srt = cx.ghost.get("sorts")
         out.append(("same-number-of-files", n == P.n, "the record consists of exactly the given files"))
+        out.append(("accepted-only-if:all-loadable-and-openable", self.all_ok(cx, a), "accepted only when every file is a loadable, openable container"))
+        for nm, g in chain_parts(cx, rec, a.kw["allow_baseless"].t):
+            out.append(("accepted-only-if:" + nm, g, "accepted exactly when the files are one base plus a gap-free chain of untampered patches of the same record"))
         if srt:
             _, _, pi, pinv = srt[-1]
             mp = [m for m in cx.ghost.get("maps", []) if isinstance(m[0], __import__("ast").ListComp)]
@@ -293,7 +300,9 @@ class OpenRecord(FnSpec):
             out.append(("files-are-the-given-paths", z3.BoolVal(False), "files are put in patch-index order"))
         uj, fj = ub_ref_at(cx, rec, j)
         ui, fi = ub_ref_at(cx, rec, i)
-        out.append(("index-order", z3.ForAll([i, j], z3.Implies(z3.And(0 <= i, i < j, j < n), ui.py_getattr(cx, "patch_index").t < uj.py_getattr(cx, "patch_index").t)), "files are in strictly increasing patch-index order"))
+        ujm1, _ = ub_ref_at(cx, rec, j - 1)
+        out.append(("index-order:ascending", z3.ForAll([i, j], z3.Implies(z3.And(0 <= i, i < j, j < n), ui.py_getattr(cx, "patch_index").t <= uj.py_getattr(cx, "patch_index").t)), "files are in patch-index order"))
+        out.append(("index-order:adjacent-strict", z3.ForAll([j], z3.Implies(z3.And(1 <= j, j < n), ujm1.py_getattr(cx, "patch_index").t < uj.py_getattr(cx, "patch_index").t)), "patch indices strictly increase along the chain"))
         out.append(("user-blocks-from-disk", z3.ForAll([j], z3.Implies(z3.And(0 <= j, j < n), z3.And(rec.fields["_ublocks"].has(fj), uj.t == UBOF(fj)))), "the in-memory user blocks are the ones stored in the files"))
         ul, fl = ub_ref_at(cx, rec, n - 1)
         want_rw = z3.And(ul.py_getattr(cx, "hdf5_hashsum").isnone, a.kw["reopen_incomplete_patch"].t)
